@@ -12,4 +12,13 @@ def _add(prop, *names):
     PROP_THEOREMS.setdefault(prop, []).extend(names)
 
 
+# the invariant every reachable-state theorem rests on (holds after every history of API calls)
+_REACH = ["Pfdl.Sched.runOps_inv"]
+
+_add("C01", *_REACH, "Pfdl.Props.C01.no_stall", "Pfdl.Props.C01.awaited_eq_outstanding",
+     "Pfdl.Props.C01.nothing_awaited_when_finished", "Pfdl.Props.C01.running_iff", "Pfdl.Props.C01.running_iff_init",
+     "Pfdl.Props.C01.running_iff_full_false", "Pfdl.Props.C01.finished_absorbing")
+_add("C08", *_REACH, "Pfdl.Props.C08.accept_iff", "Pfdl.Props.C08.accept_iff_partial", "Pfdl.Props.C08.accept_iff_full_false",
+     "Pfdl.Props.C08.reject_noop", "Pfdl.Props.C08.as_if_never_sent", "Pfdl.Props.C08.start_idempotent",
+     "Pfdl.Props.C08.invalid_inert")
 _add("C13", "Pfdl.Props.C13.table_complete")
